@@ -1,8 +1,9 @@
 import TexelVerif.Chess.Spec
 /-!
 FEN reader / writer mirroring `TextIO::readFEN` / `toFEN` (textio.cpp:34-266) character by character.
-Errors are the reader's `ChessParseError` cases.  The half-move clock and move counter are `Int` here
-because the reader accepts whatever `std::stoi` accepts (including negative numbers — finding C17).
+Errors are the reader's `ChessParseError` cases.  The half-move clock and move counter are `Int` in the raw
+result because `std::stoi` delivers an `int`; since the C17 repair the reader clamps both to
+`0 … maxMoveCounter` (see `clampCounter`; `Props/C17.lean` has the witness for the old behaviour).
 -/
 namespace Chess
 
@@ -86,6 +87,29 @@ def countPc (b : Board) (pc : Pc) : Nat := (allSq.filter fun s => b[s] == pc).le
 def RawPos.toPos (r : RawPos) : Pos :=
   { b := r.b, wtm := r.wtm, castle := r.castle, ep := r.ep, hmc := r.hmc.toNat, fmc := r.fmc.toNat }
 
+/-- largest counter value the reader lets into a position (`maxMoveCounter` in textio.cpp, the C17 repair) -/
+def maxMoveCounter : Int := 65535
+
+/-- counters are clamped to `0 … maxMoveCounter` (before the repair the `std::stoi` value was stored as is,
+    so a negative half-move clock became a negative index into `Position::moveCntKeys`) -/
+def clampCounter (v : Int) : Int := min (max v 0) maxMoveCounter
+
+/-- a counter field: `str2Num` failure leaves the default, success stores the clamped value -/
+def counterOfWord (w : List Char) (dflt : Int) : Int :=
+  match stoi w with
+  | some v => clampCounter v
+  | none => dflt
+
+/-- the validation after the six fields have been read: one king each, the side not to move is not in check;
+    then the en-passant fix-up -/
+def finishRead (b : Board) (wtm : Bool) (cm : UInt8) (ep : Option Sq) (hmc fmc : Int) : Except FenErr RawPos :=
+  if countPc b WKING != 1 then .error .whiteKings
+  else if countPc b BKING != 1 then .error .blackKings
+  else if inCheck b (!wtm) then .error .kingCapture
+  else
+    let p : Pos := fixupEP { b := b, wtm := wtm, castle := cm, ep := ep, hmc := 0, fmc := 1 }
+    .ok { b := b, wtm := wtm, castle := cm, ep := p.ep, hmc := hmc, fmc := fmc }
+
 def readFENRaw (fen : String) : Except FenErr RawPos := do
   let empty : Board := Vector.replicate 64 0
   let (b, rest) ← parsePlacement fen.toList empty 7 0
@@ -122,16 +146,11 @@ def readFENRaw (fen : String) : Except FenErr RawPos := do
     let rest := rest'
     let rest := skipSpaces rest
     let (hw, rest) := takeWord rest
-    let hmc : Int := if hw.isEmpty then 0 else (stoi hw).getD 0
+    let hmc : Int := if hw.isEmpty then 0 else counterOfWord hw 0
     let rest := skipSpaces rest
     let (fw, _) := takeWord rest
-    let fmc : Int := if fw.isEmpty then 1 else (stoi fw).getD 1
-    if countPc b WKING != 1 then .error .whiteKings
-    else if countPc b BKING != 1 then .error .blackKings
-    else if inCheck b (!wtm) then .error .kingCapture
-    else
-      let p : Pos := fixupEP { b := b, wtm := wtm, castle := cm, ep := ep, hmc := 0, fmc := 1 }
-      .ok { b := b, wtm := wtm, castle := cm, ep := p.ep, hmc := hmc, fmc := fmc }
+    let fmc : Int := if fw.isEmpty then 1 else counterOfWord fw 1
+    finishRead b wtm cm ep hmc fmc
 
 def readFEN (fen : String) : Except FenErr Pos := (readFENRaw fen).map RawPos.toPos
 
